@@ -1,6 +1,7 @@
 """C16 — mem classification and bidi checks equal their per-character definitions."""
 from mirlib import *
 from ranges import *
+import scan
 
 MANIFEST = {
     'category': 'other',
@@ -9,10 +10,16 @@ MANIFEST = {
             'right-to-left list; (D2) every threshold comparison on a unit in the Latin1/ASCII classifiers (scalar tails, '
             'stride reducers, both default and simd-accel builds) denotes exactly the documented range; (D3) the '
             'check_*_for_latin1_and_bidi functions compose the Latin1 scan and the bidi scan as documented (which result is '
-            'returned under which outcome, hand-over offset, no unit skipped). Stride/offset bookkeeping inside the '
-            'buffer-level loops and the byte-level automata of is_str_bidi/is_utf8_bidi are not decided here.',
+            'returned under which outcome, hand-over offset, no unit skipped); (D4, R-SCAN) the byte-level automata is_utf8_bidi, '
+            'is_str_bidi and the UTF-8/str Latin1 scanners are decided for every buffer by abstract interpretation of each acyclic '
+            'segment between loop heads (exact interval set per byte, the UTF8_DATA table tests through the relation proven in C14-D2, '
+            'distance-to-end zone, inductive cut-point invariants by fixpoint): (S1) the cursor only moves past bytes the path proves to be '
+            'complete valid sequences whose scalars are disjoint from the documented right-to-left list (for is_str_bidi validity is the '
+            'precondition), (S2) `false`/None is returned only with the end of the buffer proven reached, (S3) `true`/Some is returned only '
+            'when every valid completion of the bytes at the cursor is right-to-left (resp. non-Latin1) or the sequence is invalid or '
+            'proven truncated. The iterator kernels (as_chunks strides/tails) are decided by R-KERNEL.',
     'note': 'Trusted: rustc MIR, mirx, rule library, the documented RTL block list transcribed in rules/p_c16.py, core iterator semantics (all/any/reduce/next).',
-    'technique': 'abstract interpretation (exact interval sets over one scalar input) on rustc MIR + control-dependence shape rules',
+    'technique': 'abstract interpretation on rustc MIR: exact interval sets over one scalar input; path-sensitive interval products per byte with a distance-to-end zone and fixpoint invariants for the byte automata; control-dependence shape rules',
 }
 
 CONFIGS = {'quick': ['default', 'simd'], 'thorough': ['default', 'simd', 'noalloc']}
@@ -279,4 +286,5 @@ def run(rep, facts, tier):
         d3_two_stage(rep, f, c, 'mem::check_utf8_for_latin1_and_bidi', 'mem::is_utf8_latin1_impl', 'mem::is_utf8_bidi')
         d3_two_stage(rep, f, c, 'mem::check_str_for_latin1_and_bidi', 'mem::is_str_latin1_impl', 'mem::is_str_bidi')
         d3_utf16(rep, f, c)
+        scan.run_specs(rep, f, c, 'R-SCAN', ['mem::is_utf8_bidi', 'mem::is_str_bidi', 'mem::is_utf8_latin1_impl', 'mem::is_str_latin1_impl'])
     return ('other', MANIFEST['text'], ['documented RTL list (mem::is_char_bidi doc comment) transcribed as RTL_CHAR'])
